@@ -372,6 +372,10 @@ def run(prog: Program, col: Collector, tier: str, refs: Optional[Refs] = None):
                               "enclosing interpretation would delegate to a stale one (terms are not interpreted by the enclosing context)", m.loc(st))
                 else:
                     col.unresolved(where, f"delegate attribute re-assigned in {m.name}()", m.loc(st))
+    # ------------------------------------------------------------------ R17.10 rules hand terms only downward
+    col.rule("R17.10", "a rule of a partial interpretation hands a term only to layers beneath it (or declines), never to a fixed foreign total interpretation", floor=10)
+    _check_downward_delegation(prog, col, refs)
+
     # ------------------------------------------------------------------ R17.5 layering order
     col.rule("R17.5", "layering order: entering interpretation first, enclosing one second, tried front to back", floor=4)
     _check_layering(prog, col, refs, enter, getter_names)
@@ -474,6 +478,102 @@ def run(prog: Program, col: Collector, tier: str, refs: Optional[Refs] = None):
 
 
 # ---------------------------------------------------------------------- helpers
+
+
+
+def _named_layers(prog: Program, refs: Refs):
+    """Module-level named interpretations -> tuple of atomic layer names (flattened, in order).  Atomic layers are named by their
+    canonical binding (`funsor.interpretations.eager_base`); `reflect` is the only total atom defined by the library."""
+    PRI = "funsor.interpretations.PrioritizedInterpretation"
+    ATOMS = {"funsor.interpretations.DispatchedInterpretation", "funsor.interpretations.CallableInterpretation"}
+    raw = {}
+    for mod in prog.modules.values():
+        for name, bs in mod.bindings.items():
+            fq = f"{mod.name}.{name}"
+            for b in bs:
+                if b.kind == "assign" and isinstance(b.value, ast.Call):
+                    callee = refs.resolve(b.value.func) if isinstance(b.value.func, (ast.Name, ast.Attribute)) else None
+                    if callee == PRI:
+                        raw[fq] = ("layered", mod, b.value)
+                    elif callee in ATOMS:
+                        raw[fq] = ("atom", mod, b.value)
+            lk = prog.funcs.get(f"{mod.name}::{name}")
+            if lk is not None and any(refs.resolve(d) in ATOMS for d in lk.decorators if isinstance(d, (ast.Name, ast.Attribute))):
+                raw[fq] = ("atom", mod, None)
+    layers = {}
+
+    def flat(fq, depth=0):
+        if fq in layers:
+            return layers[fq]
+        if fq not in raw or depth > 6:
+            return None
+        kind, mod, call = raw[fq]
+        if kind == "atom":
+            layers[fq] = (fq,)
+            return layers[fq]
+        out = []
+        for a in call.args:
+            r = prog.resolve_expr(mod, a) if isinstance(a, (ast.Name, ast.Attribute)) else None
+            sub = flat(r, depth + 1) if r else None
+            if sub is None:
+                return None
+            out.extend(sub)
+        layers[fq] = tuple(out)
+        return layers[fq]
+
+    for fq in list(raw):
+        flat(fq)
+    return layers
+
+
+def _check_downward_delegation(prog: Program, col: Collector, refs: Refs):
+    from ..catalogue import Catalogue
+    cat = Catalogue(prog, refs)
+    layers = _named_layers(prog, refs)
+    REFLECT = "funsor.interpretations.reflect"
+    if REFLECT not in layers:
+        raise AnalysisError("anchor funsor.interpretations.reflect (the total bottom interpretation) not found")
+    col.cur.analysed["named_interpretations"] = {k: list(v) for k, v in sorted(layers.items())}
+    stateful = {c.fq for c in prog.subclasses("funsor.interpretations.StatefulInterpretation")}
+    n_calls = 0
+    seen = set()
+    for reg in cat.registrations:
+        if reg.target is None or reg.method != "register":
+            continue
+        if reg.registry in layers:
+            own = layers[reg.registry][0]       # X.register on a layered interpretation registers with its FIRST layer
+        elif reg.registry in stateful:
+            own = reg.registry
+        else:
+            continue
+        f = reg.target
+        for c in ast.walk(f.node):
+            if not (isinstance(c, ast.Call) and isinstance(c.func, ast.Attribute) and c.func.attr == "interpret"):
+                continue
+            t = refs.resolve(c.func.value) if isinstance(c.func.value, (ast.Name, ast.Attribute)) else None
+            if t is None or t not in layers:
+                continue
+            key = (f.fq, own, norm(c))
+            if key in seen:
+                continue
+            seen.add(key)
+            n_calls += 1
+            tl = layers[t]
+            construct = f"{f.fq}::{norm(c.func)}"
+            if t == REFLECT:
+                col.ok(construct, "builds the term uninterpreted (reflect): no interpretation is bypassed, the result is re-interpreted by whoever evaluates it", f.loc(c), nontrivial=False)
+                continue
+            if REFLECT not in tl:
+                col.ok(construct, f"delegates to the partial interpretation {t.rsplit('.', 1)[-1]}, which declines (None) when it has no rule: fall-through is kept", f.loc(c))
+                continue
+            homes = [n for n, ls in layers.items() if own in ls and set(tl) <= set(ls)]
+            col.check(bool(homes), construct,
+                      f"rule of layer {own.rsplit('.', 1)[-1]} re-dispatches to {t.rsplit('.', 1)[-1]}, whose layers all belong to a declared layering containing this layer ({homes[0].rsplit('.', 1)[-1] if homes else ''})",
+                      f"a rule registered with the partial interpretation {own.rsplit('.', 1)[-1]} hands its term to the fixed total interpretation "
+                      f"{t.rsplit('.', 1)[-1]} = {[x.rsplit('.', 1)[-1] for x in tl]}, which is not part of any declared layering containing "
+                      f"{own.rsplit('.', 1)[-1]}: the term is no longer interpreted by the context enclosing `with {own.rsplit('.', 1)[-1]}` "
+                      "(a partial interpretation must decline with None to fall through)", f.loc(c))
+    col.cur.analysed["interpret_calls_in_rules"] = n_calls
 
 
 def _is_minus_one(s: ast.AST) -> bool:
